@@ -36,6 +36,25 @@ func declFun(name string, res Sort, args ...Sort) {
 	}
 }
 
+func init() { isBoundVar = func(t *Term) bool { return boundVars[t] } }
+
+// nameGround gives a large ground term a name (definition sent lazily)
+func nameGround(t *Term) *Term {
+	if len(t.Args) == 0 || treeSize(t) < 24 || hasBound(t) || t.S == SBool {
+		return t
+	}
+	if c, ok := groundNames[t]; ok {
+		return c
+	}
+	c := Const(freshName("g"), t.S)
+	constDefs[c] = t
+	constFacts[c.Op] = []*Term{mk("=", SBool, c, t)}
+	groundNames[t] = c
+	return c
+}
+
+var groundNames = map[*Term]*Term{}
+
 func BoundVar(name string, s Sort) *Term {
 	t := Const(freshName("q."+name), s)
 	boundVars[t] = true
@@ -235,10 +254,11 @@ func (e *Exec) constVal(c *ssa.Const) Val {
 // ---- memory ------------------------------------------------------------------
 
 func (e *Exec) setHeap(st *State, name string, sort Sort, val *Term) {
+	// the definition is sent to the solver lazily, when the constant first
+	// occurs in a formula (ensureDecls)
 	c := Const(freshName(name+"@"), sort)
 	constDefs[c] = val
-	e.sol.DeclareConst(c)
-	e.assumeRaw(mk("=", SBool, c, val))
+	constFacts[c.Op] = []*Term{mk("=", SBool, c, val)}
 	st.heaps[name] = c
 }
 
@@ -358,9 +378,8 @@ func (e *Exec) term(v Val) *Term {
 func (e *Exec) newObject(st *State, name string, t types.Type, init Val) *Term {
 	r := Const(freshName("r."+name), SInt)
 	freshRefs[r] = true
-	e.sol.DeclareConst(r)
 	st.alloc = Add(st.alloc, IntLit(1))
-	e.assumeRaw(And(Gt(r, IntLit(0)), Eq(App("rkind", SInt, r), IntLit(0)), Eq(App("birth", SInt, r), st.alloc)))
+	constFacts[r.Op] = []*Term{And(Gt(r, IntLit(0)), Eq(App("rkind", SInt, r), IntLit(0)), Eq(App("birth", SInt, r), st.alloc))}
 	if t != nil {
 		if arr, ok := under(t).(*types.Array); ok && arr.Len() > 32 {
 			return r // contents unconstrained
